@@ -19,7 +19,7 @@ def run(d):
 seeds = sorted(os.path.join(V, "seeded", x) for x in os.listdir(os.path.join(V, "seeded")) if os.path.isdir(os.path.join(V, "seeded", x)))
 twins = sorted(os.path.join(V, "twins", x) for x in os.listdir(os.path.join(V, "twins")) if os.path.isdir(os.path.join(V, "twins", x)))
 idx = {}
-with cf.ThreadPoolExecutor(max_workers=6) as ex:
+with cf.ThreadPoolExecutor(max_workers=14) as ex:
     for d, fire, nov, first in ex.map(run, seeds):
         mp = os.path.join(d, "meta.json")
         m = json.load(open(mp))
@@ -31,7 +31,7 @@ with cf.ThreadPoolExecutor(max_workers=6) as ex:
         print(os.path.basename(d), fire, nov)
 json.dump(idx, open(os.path.join(V, "seeded", "INDEX.json"), "w"), indent=1)
 tidx = {}
-with cf.ThreadPoolExecutor(max_workers=6) as ex:
+with cf.ThreadPoolExecutor(max_workers=14) as ex:
     for d, fire, nov, first in ex.map(run, twins):
         m = json.load(open(os.path.join(d, "meta.json")))
         tidx[os.path.basename(d)] = {"title": m.get("title"), "false_alarms": fire, "no_verdict": nov}
